@@ -1,5 +1,209 @@
 import NimaVerif.Lemmas.Trivia
-/-! # C03 — trivia-algebra theorems (being proved; see Lemmas/Trivia.lean). -/
+/-!
+# C03 — comments survive exactly once, in order, in place (trivia algebra)
+
+Theorems about `Model/Trivia.lean` (the transliteration of `expressions/trivia.py`, `comment.py`):
+the trivia formatters emit every comment of their list exactly once and in order, and the text
+normalisation `Comment.from_cst` / `rebuild` is a projection (normalising twice = once), for every
+trivia list, every comment token text, every column and indentation. SPEC notions are in
+`Model/TriviaSpec.lean`. The per-construct renderers are observed by the harness, not modelled.
+-/
 namespace Nima.C03
-theorem formatTrivia_nil (i : Nat) : formatTrivia [] i = [] := rfl
+
+/-! ## `format_trivia`: each item rendered once, in order, independently of its siblings -/
+
+/-- For comma-free lists `format_trivia` is a `flatMap`: a blank-line marker is a line break, a
+    line-break marker is nothing, a comment is its rendering followed by a line break. -/
+theorem formatTrivia_flatMap (ts : List Trivia) (i : Nat) (h : CommaFree ts) :
+    formatTrivia ts i = ts.flatMap (itemText i) :=
+  formatTrivia_eq_flatMap ts i h
+
+/-- congruence: rendering distributes over concatenation of lists -/
+theorem formatTrivia_append (a b : List Trivia) (i : Nat) (h : CommaFree (a ++ b)) :
+    formatTrivia (a ++ b) i = formatTrivia a i ++ formatTrivia b i :=
+  Nima.formatTrivia_append a b i h
+
+/-- The output is the concatenation of white-space pieces and comment tokens in which the comment
+    tokens are exactly the comments of the list — each once, in order. -/
+theorem formatTrivia_comments_once_in_order (ts : List Trivia) (i : Nat) (h : CommaFree ts) :
+    formatTrivia ts i = piecesText (triviaPieces i ts) ∧
+    (triviaPieces i ts).filterMap Piece.cmt? = commentTokens i ts := by
+  refine ⟨?_, filterMap_cmt_triviaPieces i ts h⟩
+  rw [formatTrivia_eq_flatMap ts i h, piecesText_triviaPieces]
+
+/-- A comment's rendering is an indentation run followed by its token; inline-flagged comments
+    ignore the requested indentation. -/
+theorem rebuild_is_indent_token (c : Comment) (i : Nat) :
+    c.rebuild i = spaces (c.effIndent i) ++ c.token (c.effIndent i) :=
+  rebuild_eq_token c i
+
+/-! ## `format_interstitial_trivia`: not a flatMap, but the same comments once and in order -/
+
+/-- `format_interstitial_trivia` looks at what it has rendered so far (only: is it empty, what is
+    its last character). Its output is the concatenation of the pieces `interPieces`, whose comment
+    tokens are exactly the comments of the list, each once, in order; the white space before an
+    item is `interGlue`. -/
+theorem interstitial_comments_once_in_order (items : List Trivia) (i : Nat) (inlineNL : Bool) :
+    formatInterstitialTrivia items i inlineNL = piecesText (interPieces i inlineNL items []) ∧
+    (interPieces i inlineNL items []).filterMap Piece.cmt? = commentTokens i items := by
+  refine ⟨?_, interPieces_comments i inlineNL items []⟩
+  rw [formatInterstitialTrivia, interGo_pieces]; rfl
+
+/-- One step of the loop, exactly. -/
+theorem interstitial_step (i : Nat) (nl : Bool) (t : Trivia) (rest : List Trivia) (acc : Text) :
+    formatInterstitialGo i nl (t :: rest) acc =
+      formatInterstitialGo i nl rest (acc ++ piecesText (interItemPieces i nl acc t)) :=
+  interGo_step i nl t rest acc
+
+/-- The dependence on the already rendered text is only through its last character: a non-empty
+    rendered prefix can be split off at any point. -/
+theorem interstitial_prefix_congr (i : Nat) (nl : Bool) (ts : List Trivia) (a b : Text) (hb : b ≠ []) :
+    formatInterstitialGo i nl ts (a ++ b) = a ++ formatInterstitialGo i nl ts b :=
+  interGo_append i nl ts a b hb
+
+/-- At a line start and without inline-flagged comments the interstitial renderer coincides with the
+    flatMap form of `format_trivia`. -/
+theorem interstitial_at_line_start (i : Nat) (nl : Bool) (ts : List Trivia) (acc : Text)
+    (h : CommaFree ts) (hin : ∀ t ∈ ts, t.isInlineComment = false) (hacc : endsWithNL acc = true) :
+    formatInterstitialGo i nl ts acc = acc ++ formatTrivia ts i := by
+  rw [formatTrivia_eq_flatMap ts i h]; exact interGo_at_line_start i nl ts acc h hin hacc
+
+/-! ## Comment text round trip: line comments -/
+
+/-- A line-comment token `#r` (no line break in `r`) is reproduced character for character, with
+    one exception: `# ` (hash, one space, nothing else) loses its trailing space. -/
+theorem line_comment_roundtrip (col : Nat) (r : Text) (hnl : containsNL r = false) :
+    (Comment.fromText col ('#' :: r)).str = if r = [' '] then ['#'] else '#' :: r :=
+  line_comment_str col r hnl
+
+/-- the exact exception set of the round trip -/
+theorem line_comment_roundtrip_iff (col : Nat) (r : Text) (hnl : containsNL r = false) :
+    (Comment.fromText col ('#' :: r)).str = '#' :: r ↔ r ≠ [' '] := by
+  rw [line_comment_str col r hnl]
+  by_cases h : r = [' ']
+  · subst h; simp
+  · simp [h]
+
+/-- full statement (false): every line comment token is reproduced -/
+def line_comment_roundtrip_full : Prop :=
+  ∀ (col : Nat) (r : Text), containsNL r = false → (Comment.fromText col ('#' :: r)).str = '#' :: r
+
+/-- `# ` is rewritten to `#`: the only line comment whose text changes (trailing white space). -/
+theorem cex_hash_space : ¬ line_comment_roundtrip_full := by
+  intro h
+  have := h 0 [' '] rfl
+  revert this; decide
+
+theorem shebang_roundtrip (col : Nat) (r : Text) :
+    (Comment.fromText col ('#' :: '!' :: r)).str = '#' :: '!' :: r := by
+  rw [fromText_shebang]; simp [Comment.str]
+
+/-- The rendering of a line comment at indentation `i` is `i` spaces and the (normalised) token. -/
+theorem line_comment_rebuild (col i : Nat) (r : Text) (hnl : containsNL r = false) :
+    (Comment.fromText col ('#' :: r)).rebuild i = spaces i ++ (if r = [' '] then ['#'] else '#' :: r) :=
+  Nima.line_comment_rebuild col i r hnl
+
+/-! ## Normalisation is idempotent -/
+
+/-- Line comments: reading back the rendered token gives the same `Comment` (structurally), at any
+    columns, except for `# ` whose `space_after_hash` flag flips once (see `cex_hash_space_flag`);
+    the rendered text is stable in every case (`line_comment_text_idem`). -/
+theorem line_comment_idem (c1 c2 : Nat) (r : Text) (hnl : containsNL r = false) (h : r ≠ [' ']) :
+    Comment.fromText c2 ((Comment.fromText c1 ('#' :: r)).rebuild 0) = Comment.fromText c1 ('#' :: r) := by
+  rw [Nima.line_comment_rebuild c1 0 r hnl, if_neg h]
+  exact fromText_hash_col c2 c1 r
+
+def line_comment_idem_full : Prop :=
+  ∀ (c1 c2 : Nat) (r : Text), containsNL r = false →
+    Comment.fromText c2 ((Comment.fromText c1 ('#' :: r)).rebuild 0) = Comment.fromText c1 ('#' :: r)
+
+theorem cex_hash_space_flag : ¬ line_comment_idem_full := by
+  intro h
+  have := h 0 0 [' '] rfl
+  revert this; decide
+
+/-- text-level idempotence for every line comment, `# ` included -/
+theorem line_comment_text_idem (c1 c2 i j : Nat) (r : Text) (hnl : containsNL r = false) :
+    (Comment.fromText c2 (((Comment.fromText c1 ('#' :: r)).rebuild i).drop i)).rebuild j
+      = (Comment.fromText c1 ('#' :: r)).rebuild j := by
+  rw [Nima.line_comment_rebuild c1 i r hnl]
+  have hd : (spaces i ++ (if r = [' '] then ['#'] else '#' :: r)).drop i = (if r = [' '] then ['#'] else '#' :: r) := by
+    rw [List.drop_left' (by simp)]
+  rw [hd]
+  by_cases h : r = [' ']
+  · subst h
+    simp only [if_true]
+    rw [Nima.line_comment_rebuild c2 j [] rfl, Nima.line_comment_rebuild c1 j [' '] rfl]; simp
+  · simp only [h, if_false]
+    rw [fromText_hash_col c2 c1 r]
+
+/-- `str.strip()` is idempotent (for Python's `isspace` class). -/
+theorem strip_idempotent (s : Text) : strip (strip s) = strip s := strip_idem s
+
+/-- Block comments (`/* … */`, `/** … */`, single-line and multi-line, any inner indentation, any
+    text whatsoever after `/*`): the token the renderer writes at column `i` is read back at column
+    `i` as the same `Comment`. So normalisation is a projection on block comments. -/
+theorem block_comment_idem (c1 i : Nat) (t : Text) (h : startsWith ['/', '*'] t = true) :
+    Comment.fromText i ((Comment.fromText c1 t).token i) = Comment.fromText c1 t :=
+  block_token_fixed c1 i t h
+
+/-- the same in terms of `rebuild`: the rendering is `i` spaces followed by that token -/
+theorem block_comment_rebuild_idem (c1 i : Nat) (t : Text) (h : startsWith ['/', '*'] t = true) :
+    (Comment.fromText c1 t).rebuild i = spaces i ++ (Comment.fromText c1 t).token i ∧
+    Comment.fromText i (((Comment.fromText c1 t).rebuild i).drop i) = Comment.fromText c1 t := by
+  have hin : (Comment.fromText c1 t).inline = false := by
+    rw [fromText_block c1 t h]; split <;> rfl
+  have hr : (Comment.fromText c1 t).rebuild i = spaces i ++ (Comment.fromText c1 t).token i := by
+    rw [rebuild_eq_token]; simp [Comment.effIndent, hin]
+  refine ⟨hr, ?_⟩
+  rw [hr, List.drop_left' (by simp)]
+  exact block_token_fixed c1 i t h
+
+/-- For single-line block comments the column does not matter at all. -/
+theorem single_line_block_idem (c1 c2 i : Nat) (t : Text) (h : startsWith ['/', '*'] t = true)
+    (hs : containsNL (blockInner t) = false) :
+    Comment.fromText c2 ((Comment.fromText c1 t).token i) = Comment.fromText c1 t := by
+  rw [fromText_block c1 t h]
+  simp only [hs, Bool.false_eq_true, if_false]
+  have hx : containsNL (strip (blockInner t)) = false := containsNL_of_sublist (stripBy_sublist _ _) hs
+  have htok : ({ text := strip (blockInner t), kind := .block (blockDoc t) none } : Comment).token i =
+      blockOpening (blockDoc t) ++ [' '] ++ strip (blockInner t) ++ [' ', '*', '/'] := by
+    simp [Comment.token, hx, blockOpening]
+  rw [htok]
+  exact fromText_single_block c2 (blockDoc t) _ (stripBy_stripped _ _) hx
+
+/-- Full statement with unrelated columns (false): a multi-line block comment rendered at
+    indentation 0 but read at another column. This is the situation of an *inline* multi-line block
+    comment (`rebuild` forces indentation 0 for inline comments, the token sits after code). -/
+def block_idem_any_column_full : Prop :=
+  ∀ (c1 c2 : Nat) (t : Text), startsWith ['/', '*'] t = true →
+    Comment.fromText c2 ((Comment.fromText c1 t).rebuild 0) = Comment.fromText c1 t
+
+theorem cex_block_idem_column_mismatch : ¬ block_idem_any_column_full := by
+  intro h
+  have := h 0 1 "/*\n a*/".toList rfl
+  revert this; decide
+
+/-- The empty block comment `/**/` is read as a doc comment whose text is `/` and comes back as
+    `/** / */`: its text changes (the `/**` test precedes the `*/` test in `from_cst`). -/
+theorem cex_empty_block_comment :
+    (Comment.fromText 0 "/**/".toList).rebuild 0 = "/** / */".toList := by decide
+
+/-! ## Examples -/
+
+example : (Comment.fromText 4 "/* a\n       b\n     */".toList) =
+    { text := "a\nb\n".toList, kind := .block false (some 3) } := by decide
+example : (Comment.fromText 4 "/* a\n       b\n     */".toList).rebuild 2 = "  /* a\n     b\n  */".toList := by decide
+example : Comment.fromText 2 "/* a\n     b\n  */".toList = Comment.fromText 4 "/* a\n       b\n     */".toList := by decide
+example : (Comment.fromText 0 "#  two".toList).rebuild 2 = "  #  two".toList := by decide
+example : (Comment.fromText 0 "/*  pad  */".toList).rebuild 0 = "/* pad */".toList := by decide
+
+/-- a trivia list with a blank line, an inline comment and a block comment -/
+def sampleTrivia : List Trivia :=
+  [.emptyLine, .comment { text := "c".toList, inline := true }, .linebreak,
+   .comment { text := "a\nb".toList, kind := .block false (some 3) }]
+
+example : commentTokens 2 sampleTrivia = ["# c".toList, "/* a\n     b */".toList] := by decide
+example : formatInterstitialTrivia sampleTrivia 2 = "\n\n# c\n  /* a\n     b */\n".toList := by decide
+
 end Nima.C03
